@@ -482,6 +482,42 @@ pub fn soup_strategy() -> impl Strategy<Value = DirCase> {
             v.push(short_slot(&short, if dir { 0x10 } else { 0x20 }));
             v
         }),
+        // a valid run of 2..9 slots whose FIRST on-disk slot got another order byte: deleted (0xE5 reads as "last flag,
+        // index 5" to a careless parser), the 0x05 escape, end marker, last flag lost, index off by one, ...
+        2 => ("[a-z0-9 ]{14,110}", prop::sample::select(vec![0xE5u8, 0x05, 0x00, 0x45, 0x25, 0xC5, 0x65, 0xA5]), any::<bool>(), any::<u8>()).prop_map(|(name, first, rel, k)| {
+            let short = *b"FIRSTSLTTXT";
+            let units: Vec<u16> = name.encode_utf16().collect();
+            let mut v = run_for_name(&units, &short);
+            let n = v.len() as u8;
+            v[0][0] = if rel { [n, n + 1, 0x40 | (n + 1), 0x40 | (n - 1), 0xE5, 0x80 | n][k as usize % 6] } else { first };
+            v.push(short_slot(&short, 0x20));
+            v
+        }),
+        // runs numbered 21..31 whose name is short: the upper slots are pure 0xFFFF padding (index > 20 is never valid)
+        1 => (21usize..=31, 1usize..60, any::<bool>()).prop_map(|(nslots, len, zero_pad)| {
+            let short = *b"TOOMANY~1  ";
+            let chk = sfn_checksum(&short);
+            let units: Vec<u16> = (0..len).map(|i| 0x61 + (i % 26) as u16).collect();
+            let mut v = Vec::new();
+            for i in (0..nslots).rev() {
+                let mut u = [if zero_pad { 0u16 } else { 0xFFFFu16 }; 13];
+                if i * 13 < len {
+                    let part = &units[i * 13..((i + 1) * 13).min(len)];
+                    u = [0xFFFFu16; 13];
+                    u[..part.len()].copy_from_slice(part);
+                    if part.len() < 13 {
+                        u[part.len()] = 0;
+                    }
+                }
+                let mut ord = (i + 1) as u8;
+                if i == nslots - 1 {
+                    ord |= 0x40;
+                }
+                v.push(lfn_slot(ord, chk, &u, 0x0F));
+            }
+            v.push(short_slot(&short, 0x20));
+            v
+        }),
         // garbage long-name slots
         3 => (any::<u8>(), any::<u8>(), prop::collection::vec(any::<u16>(), 13..=13), prop::sample::select(vec![0x0Fu8, 0x0F, 0x1F, 0x2F, 0x3F, 0x4F, 0x8F])).prop_map(|(o, c, u, a)| {
             let mut arr = [0u16; 13];
@@ -528,7 +564,7 @@ fn fail(c: &DirCase, m: String) -> Failure {
 }
 
 pub fn run(tier: Tier, seed: u64) -> i32 {
-    let rule = "directory regions (fixed FAT12 root and a two-cluster chained directory) filled with generated 32-byte slots, cluster fields forced valid: block A = every order/last-flag/checksum pattern of runs of 1..3 long-name slots over 29 interesting order bytes (incl. index 0 with only flag / undefined bits) x follower (short entry, deleted slot, label, end marker, second run, directory); block B = every value of each of the 32 bytes of each slot of a valid two-slot run and of its short entry; block C = random slot soup (valid runs with one damaged byte, 19-21 slot runs of 245..262 units with and without terminator, BMP-only or with surrogate pairs / lone surrogates, garbage long-name slots incl. attr 0x1F/0x2F/0x3F, arbitrary short slots, deleted, labels, end markers); oracle = iteration and every accessor + Debug terminate without panic within a device-call budget, names <= 255 units, and the listing (entries, short names, long names) equals refdec's backwards run parser under at least one reading of the undefined bits; block D = the order patterns of 1..3 slots and the slot soup through the build with the fixed long-name buffer, listing compared with the default build's (no crash, same entries); non-trivial = region with a long-name slot whose run is broken; distinct by hash of the region";
+    let rule = "directory regions (fixed FAT12 root and a two-cluster chained directory) filled with generated 32-byte slots, cluster fields forced valid: block A = every order/last-flag/checksum pattern of runs of 1..3 long-name slots over 29 interesting order bytes (incl. index 0 with only flag / undefined bits) x follower (short entry, deleted slot, label, end marker, second run, directory); block B = every value of each of the 32 bytes of each slot of a valid two-slot run and of its short entry; block C = random slot soup (valid runs with one damaged byte, 19-21 slot runs of 245..262 units with and without terminator, BMP-only or with surrogate pairs / lone surrogates, valid runs whose first on-disk slot got another order byte (deleted mark, 0x05, index off by one ...), runs numbered 21..31 with padding-only upper slots, garbage long-name slots incl. attr 0x1F/0x2F/0x3F, arbitrary short slots, deleted, labels, end markers); oracle = iteration and every accessor + Debug terminate without panic within a device-call budget, names <= 255 units, and the listing (entries, short names, long names) equals refdec's backwards run parser under at least one reading of the undefined bits; block D = the order patterns of 1..3 slots and the slot soup through the build with the fixed long-name buffer, listing compared with the default build's (no crash, same entries); non-trivial = region with a long-name slot whose run is broken; distinct by hash of the region";
     let mut rep = Report::new("C17", tier, seed, "exploration", rule);
     rep.assume("undefined bits (attr bits 4-5 of long-name slots, order-byte bits 5 and 7) may be read either way; a run whose order/checksum are valid but whose NUL/0xFFFF layout is malformed may be returned or dropped");
     rep.assume("blocks A-C drive the default (alloc) build in-process against the independent parser; block D feeds the same families to the fixed-buffer build and the default build through featdrv and compares their listings");
